@@ -138,6 +138,14 @@ fn replay(a: &Args) {
                         break;
                     }
                 }
+                if ok && d.abort.is_none() {
+                    // closing releases (not in the TLC behaviour; judged by WorldTrace if they go wrong)
+                    evs.extend(d.finish());
+                }
+                if let (true, Some(why)) = (ok, &d.abort) {
+                    ok = false;
+                    bad = Some(json!({"call": evs.last().unwrap(), "harness_stopped": why}));
+                }
                 (evs, ok, bad)
             };
             let (evs, ok, bad) = if pool { on_pool(run) } else { run() };
@@ -234,7 +242,7 @@ fn rand_call(rng: &mut StdRng, d: &Driver, mode: &mut u8) -> CallSpec {
         let e = &d.table[&g];
         return match rng.gen_range(0..100) {
             0..=44 => mk("drop", e.ty, e.ty, e.dy, 0, vec![g], vec![]),
-            45..=59 if e.kind == 'r' && e.g.dup().is_some() => mk("clone", e.ty, e.ty, e.dy, 0, vec![g], vec![]),
+            45..=59 if e.g.cloneable() => mk("clone", e.ty, e.ty, e.dy, 0, vec![g], vec![]),
             60..=74 if e.kind == 'w' => mk("write", e.ty, e.ty, e.dy, p, vec![g], vec![]),
             75..=89 => {
                 let mut sel: Vec<u32> = live.iter().cloned().filter(|_| rng.gen_bool(0.5)).collect();
@@ -299,6 +307,12 @@ fn random(a: &Args) {
                     break;
                 }
             }
+            if d.abort.is_none() {
+                evs.extend(d.finish());
+                if let Some(why) = &d.abort {
+                    evs.push(json!({"ev":"abort","why":why}));
+                }
+            }
             evs
         };
         let evs = if pool { on_pool(run) } else { run() };
@@ -347,6 +361,7 @@ fn threads(a: &Args) {
     let mut rng = StdRng::seed_from_u64(seed);
     let mut w = BufWriter::new(File::create(out).unwrap());
     let (mut tcalls, mut syncs, mut aborted, mut max_pending, mut overlapped) = (0usize, 0usize, 0usize, 0usize, 0usize);
+    let mut rayon_rounds = 0usize;
     let mut outcomes = std::collections::BTreeMap::<String, usize>::new();
     let mut thread_counts = Vec::new();
     let mut samples = Vec::new();
@@ -380,22 +395,32 @@ fn threads(a: &Args) {
             let seeds: Vec<u64> = (0..k).map(|_| rng.gen()).collect();
             let dref = &d;
             let start = std::sync::Barrier::new(k);
-            let back: Vec<Vec<(u32, SendEntry)>> = std::thread::scope(|s| {
-                let hs: Vec<_> = held
-                    .into_iter()
-                    .enumerate()
-                    .map(|(t, mine)| {
-                        let (log, gid, seed, start) = (&log, &gid, seeds[t], &start);
-                        let rids: Vec<Vec<shred::ResourceId>> = (1..=nt as u32).map(|ty| (0..nd as u32).map(|dy| dref.rid(ty, dy)).collect()).collect();
-                        let cis: Vec<usize> = (1..=nt as u32).map(|ty| dref.ci(ty)).collect();
-                        s.spawn(move || {
-                            start.wait();
-                            thread_body(t as u32 + 1, world, mine, log, gid, seed, nops, rids, cis)
+            let rids: Vec<Vec<shred::ResourceId>> = (1..=nt as u32).map(|ty| (0..nd as u32).map(|dy| dref.rid(ty, dy)).collect()).collect();
+            let cis: Vec<usize> = (1..=nt as u32).map(|ty| dref.ci(ty)).collect();
+            // every other block runs its "threads" as tasks on the workers of a rayon pool
+            let on_rayon = cfg!(feature = "parallel") && b % 2 == 1;
+            let back: Vec<Vec<(u32, SendEntry)>> = if on_rayon {
+                run_on_rayon(k, held, &log, &gid, &seeds, &start, nops, world, &rids, &cis)
+            } else {
+                std::thread::scope(|s| {
+                    let hs: Vec<_> = held
+                        .into_iter()
+                        .enumerate()
+                        .map(|(t, mine)| {
+                            let (log, gid, seed, start) = (&log, &gid, seeds[t], &start);
+                            let (rids, cis) = (rids.clone(), cis.clone());
+                            s.spawn(move || {
+                                start.wait();
+                                thread_body(t as u32 + 1, world, mine, log, gid, seed, nops, rids, cis)
+                            })
                         })
-                    })
-                    .collect();
-                hs.into_iter().map(|h| h.join().expect("harness thread")).collect()
-            });
+                        .collect();
+                    hs.into_iter().map(|h| h.join().expect("harness thread")).collect()
+                })
+            };
+            if on_rayon {
+                rayon_rounds += 1;
+            }
             for v in back {
                 for (g, e) in v {
                     d.table.insert(g, e.0);
@@ -444,9 +469,56 @@ fn threads(a: &Args) {
     w.flush().unwrap();
     println!(
         "{}",
-        json!({"blocks":blocks,"thread_calls":tcalls,"syncs":syncs,"aborted_blocks":aborted,"threads_per_block":thread_counts,"max_pending_calls":max_pending,"calls_overlapping_another":overlapped,
+        json!({"blocks":blocks,"thread_calls":tcalls,"syncs":syncs,"aborted_blocks":aborted,"threads_per_block":thread_counts,"max_pending_calls":max_pending,"rounds_on_rayon_workers":rayon_rounds,"calls_overlapping_another":overlapped,
                "outcomes":outcomes,"samples":samples})
     );
+}
+
+#[cfg(feature = "parallel")]
+#[allow(clippy::too_many_arguments)]
+fn run_on_rayon(
+    k: usize,
+    held: Vec<Vec<(u32, SendEntry)>>,
+    log: &Log,
+    gid: &AtomicU32,
+    seeds: &[u64],
+    start: &std::sync::Barrier,
+    nops: usize,
+    world: &'static shred::World,
+    rids: &[Vec<shred::ResourceId>],
+    cis: &[usize],
+) -> Vec<Vec<(u32, SendEntry)>> {
+    // k workers for k tasks that all wait at the start barrier
+    let pool = rayon::ThreadPoolBuilder::new().num_threads(k).build().unwrap();
+    let slots: Vec<Mutex<Option<Vec<(u32, SendEntry)>>>> = (0..k).map(|_| Mutex::new(None)).collect();
+    pool.scope(|s| {
+        for (t, mine) in held.into_iter().enumerate() {
+            let slots = &slots;
+            let (rids, cis, seed) = (rids.to_vec(), cis.to_vec(), seeds[t]);
+            s.spawn(move |_| {
+                start.wait();
+                let r = thread_body(t as u32 + 1, world, mine, log, gid, seed, nops, rids, cis);
+                *slots[t].lock().unwrap() = Some(r);
+            });
+        }
+    });
+    slots.into_iter().map(|m| m.into_inner().unwrap().expect("harness task")).collect()
+}
+#[cfg(not(feature = "parallel"))]
+#[allow(clippy::too_many_arguments)]
+fn run_on_rayon(
+    _: usize,
+    _: Vec<Vec<(u32, SendEntry)>>,
+    _: &Log,
+    _: &AtomicU32,
+    _: &[u64],
+    _: &std::sync::Barrier,
+    _: usize,
+    _: &'static shred::World,
+    _: &[Vec<shred::ResourceId>],
+    _: &[usize],
+) -> Vec<Vec<(u32, SendEntry)>> {
+    unreachable!()
 }
 
 #[allow(clippy::too_many_arguments)]
@@ -482,8 +554,8 @@ fn thread_body(
             let (g, e) = &mine[rng.gen_range(0..mine.len())];
             let seen = e.0.g.canary();
             log.push(json!({"ev":"canary","t":t,"g":g,"seen":seen}));
-        } else if !mine.is_empty() && r < 52 && mine.iter().any(|(_, e)| e.0.kind == 'r') {
-            let (g, e) = mine.iter().find(|(_, e)| e.0.kind == 'r').unwrap();
+        } else if !mine.is_empty() && r < 52 && mine.iter().any(|(_, e)| e.0.g.cloneable()) {
+            let (g, e) = mine.iter().find(|(_, e)| e.0.g.cloneable()).unwrap();
             let (g, ty, dy) = (*g, e.0.ty, e.0.dy);
             log.push(json!({"ev":"tcall","t":t,"op":"clone","targ":ty,"ty":ty,"dy":dy,"g":g}));
             let r = std::panic::catch_unwind(std::panic::AssertUnwindSafe(|| e.0.g.dup()));
@@ -491,7 +563,7 @@ fn thread_body(
                 Ok(Some(ng)) => {
                     let n = gid.fetch_add(1, Ordering::SeqCst);
                     let seen = ng.canary();
-                    log.push(json!({"ev":"tret","t":t,"k":"guard","why":"","g":n}));
+                    log.push(json!({"ev":"tret","t":t,"k":"guard","why":"","g":n,"cl":ng.cloneable()}));
                     log.push(json!({"ev":"canary","t":t,"g":n,"seen":seen}));
                     mine.push((n, SendEntry(GEntry { g: ng, ty, dy, kind: 'r' })));
                 }
@@ -503,9 +575,15 @@ fn thread_body(
             let ty = rng.gen_range(1..=nt);
             let dy = if op.ends_with("by_id") { rng.gen_range(0..nd) } else { 0 };
             let kind = if op.contains("mut") { 'w' } else { 'r' };
-            log.push(json!({"ev":"tcall","t":t,"op":op,"targ":ty,"ty":ty,"dy":dy,"g":0}));
+            // try_fetch / try_fetch_mut are issued half of the time as system_data::<Option<Read/Write<T>>>()
+            let real = match op {
+                "try_fetch" if rng.gen_bool(0.5) => "sd_optread",
+                "try_fetch_mut" if rng.gen_bool(0.5) => "sd_optwrite",
+                x => x,
+            };
+            log.push(json!({"ev":"tcall","t":t,"op":op,"targ":ty,"ty":ty,"dy":dy,"g":0,"via":real,"rayon_worker":shredh::worldx::on_rayon_worker()}));
             let id = rids[ty as usize - 1][dy as usize].clone();
-            let r = std::panic::catch_unwind(std::panic::AssertUnwindSafe(|| thread_fetch(world, op, cis[ty as usize - 1], id)));
+            let r = std::panic::catch_unwind(std::panic::AssertUnwindSafe(|| thread_fetch(world, real, cis[ty as usize - 1], id)));
             match r {
                 Ok(Some(mut g)) => {
                     // canary protocol: an exclusive holder makes the counter odd while it "writes"
@@ -518,7 +596,7 @@ fn thread_body(
                         g.set_canary(seen.wrapping_add(2));
                     }
                     let n = gid.fetch_add(1, Ordering::SeqCst);
-                    log.push(json!({"ev":"tret","t":t,"k":"guard","why":"","g":n}));
+                    log.push(json!({"ev":"tret","t":t,"k":"guard","why":"","g":n,"cl":g.cloneable()}));
                     log.push(json!({"ev":"canary","t":t,"g":n,"seen":seen}));
                     mine.push((n, SendEntry(GEntry { g, ty, dy, kind })));
                 }
